@@ -832,6 +832,18 @@ func ruleC15(c *Ctx, r *Report) {
 			"this walker never renames a '$field' reference it meets as a value: under --redactFieldNames such a reference becomes the generic placeholder instead of the pseudonym the same field has as a key")
 	}
 	c01Dispatch2(c, r, p, []string{"sort"}, "C15-R3")
+	// output-field names that later stages use as field names are FieldName positions
+	// (kept in clear by default, renamed with the field under the flag) - not Exempt
+	{
+		t := c.reconstructTables()
+		for _, w := range [][]string{{"AggregationOperators", "$lookup", "as"}} {
+			v, ok := t.Lookup(w[0], w[1:]...)
+			name := w[0] + ":" + strings.Join(w[1:], ".")
+			r.Check(ok && v.Kind == "leaf" && t.LeafName(v) == "FieldName", "C15-R3", "table:"+name+"=FieldName", "src/operators.go",
+				"typed FieldName: renamed consistently with the keys that refer to it",
+				fmt.Sprintf("%s is %s: under --redactFieldNames the name stays in clear (or becomes the generic placeholder) while the $match / $sort keys that refer to it are renamed", name, map[bool]string{true: t.LeafName(v), false: "absent"}[ok]))
+		}
+	}
 
 	// ---- R4 confinement of renames
 	confinementRule(c, r, p, "C15-R4", func(gs []string) bool { return true }, "the field-name mode / --redactNamespaces")
